@@ -255,6 +255,7 @@ package file
 //@ func (*Container).Close
 //@   property C11 C01
 //@   safety
+//@   ghostset handlersClosed = handlersClosed + 1
 //@   requires containerWf(c) && (h != nil ==> handlerWf(h))
 //@   requires h != nil && has(c.m, strings.ToUpper(h.path)) ==> c.m[strings.ToUpper(h.path)] == h
 //@   ensures [closed-handler-forgotten] result == nil && h != nil ==> !has(c.m, strings.ToUpper(h.path))
